@@ -12,7 +12,7 @@ from harness.core import run_tlc, require_clean, MachineryError
 from harness.graph import Graph, Walker, Adapter
 from harness import tracecheck
 
-NAMES = ['polyB', 'A1', 'dd', 'C']    # multi-character names: a key string must not be iterated
+NAMES = ['dd', 'd', 'polyB', 'A1']    # multi-character names (a key string must not be iterated), one a substring of another, not sorted
 
 
 def cfg(n, sym, nxt, edge=True, vals='MC_Vals'):
